@@ -237,6 +237,9 @@ m("repr-is-expression-revert", "_code_repr.py", "    if not is_expression(result
 m("dataclass-init-false-revert", "_adapter/generic_call_adapter.py", "            if field.repr and field.init:\n                field_value = getattr(value, field.name)\n                is_default = False\n\n                if field.default != MISSING", "            if field.repr:\n                field_value = getattr(value, field.name)\n                is_default = False\n\n                if field.default != MISSING", ["C01", "C02"], "revert: dataclass init=False fields written as constructor arguments")
 m("attrs-alias-revert", "_adapter/generic_call_adapter.py", "                    kwargs[cls.argument_name(field)] = Argument(", "                    kwargs[field.name] = Argument(", ["C01", "C02"], "revert: private attrs attributes written as _name=")
 m("in-unmanaged-update-revert", "_snapshot/collection_value.py", "            if isinstance(old_value, Unmanaged) or isinstance(old_node, ast.JoinedStr):\n                # Is(...) and f-strings are not managed by inline-snapshot\n                continue\n", "", ["C10"], "revert: Is()/f-string members of `in` snapshots are replaced by update")
+m("pos-arg-node-bound-revert", "_adapter/generic_call_adapter.py", "                return node.args[pos] if pos < len(node.args) else None\n", "                return node.args[pos]\n", ["C18", "C05"], "revert: defaultdict(list) evaluated again / never compared raises IndexError")
+m("inserted-pos-arg-in-new-value-revert", "_adapter/generic_call_adapter.py", "                # the new argument is part of the new value\n                result_args.append(value.value)\n", "", ["C02"], "revert: comparison under fix is False when positional arguments are inserted")
+m("unchanged-pos-arg-update-revert", "_adapter/generic_call_adapter.py", 'flag="update" if unchanged else "fix",', 'flag="fix",', ["C05"], "revert: defaultdict(list) -> defaultdict(list, {}) reported as fix")
 m("run-inline-external-import-only", "testing/_example.py", '                    if used_hasrepr(tree):\n                        required_imports.append("HasRepr")', '                    if used_hasrepr(tree) and used_externals(tree):\n                        required_imports.append("HasRepr")', ["C19"], "HasRepr import only added together with external")
 
 
